@@ -15,6 +15,12 @@ Definition obind {A B} (o : out A) (k : A -> bytes -> out B) : out B :=
 Definition rd_varint (bs : bytes) : out Z :=
   match dec_varint bs with VOk (v, r) => Done v r | _ => Err end.
 
+(* the reference decoder accepts only what a conformant writer produces: the
+   shortest form *)
+Definition rd_varint_canon (bs : bytes) : out Z :=
+  obind (rd_varint bs) (fun v r =>
+    if bytes_eqb (firstn (length bs - length r) bs) (enc_varint v) then Done v r else Err).
+
 (* ReadBuf.ReadByte *)
 Definition rd_byte (bs : bytes) : out Z :=
   match bs with [] => Err | b :: r => Done b r end.
